@@ -337,7 +337,7 @@ def bind_callsig(sig, args, kwargs):
         if param.name not in assigned:
             if param.kind == param.VAR_POSITIONAL:
                 assigned[param.name] = ()
-            elif param.default != param.empty:
+            elif param.default is not param.empty:
                 assigned[param.name] = param.default
             else:
                 raise TypeError('omitted required parameter {0!r}'.format(
